@@ -51,8 +51,6 @@ def run(ctx):
                 break
     # 2. single frames: every first byte x length class (x close bodies) through recv_frame
     cases = list(frame_cases(ctx.tier, rng))
-    if ctx.tier == "quick":
-        cases = cases[::2] + cases[-len(REASONS) * 3:]
     runs = []
     for fr in cases:
         sc, line, s = observe(fr, [], "rf", 2)
@@ -72,15 +70,18 @@ def run(ctx):
     for w in words:
         frames = [ALPHA[a] for a in w]
         stream = b"".join(server_frame(op, p, fin=fin) for op, fin, p in frames)
-        sc, line, s = observe(stream, [], "rd1", len(w) + 1)
-        seqruns.append((w, stream, sc, line))
+        for fire in (0, 1):          # per-fragment delivery must not weaken the sequencing rules
+            if fire and (ctx.tier == "quick" and len(w) == 4 and hash(w) % 3):
+                continue
+            sc, line, s = observe(stream, [], "rd1", len(w) + 1, fire=fire)
+            seqruns.append((w, stream, sc, line, fire))
     if ctx.spec:
         spec = ctx.spec.run_parallel(["specseq 1 " + hx(r[1]) for r in seqruns])
-        for (w, stream, sc, line), spl in zip(seqruns, spec):
+        for (w, stream, sc, line, fire), spl in zip(seqruns, spec):
             sp = parse_specseq(spl)
             res = results_of(line)
-            T.case(("seq", w), nontrivial=len(w) > 1, bucket=f"history{len(w)}", sample={"history": list(w), "results": res[:5]})
-            judge_seq(T, w, stream, sp, res)
+            T.case(("seq", w, fire), nontrivial=len(w) > 1, bucket=f"history{len(w)}/fire{fire}", sample={"history": list(w), "fire": fire, "results": res[:5]})
+            judge_seq(T, w, stream, sp, res, fire)
     if ctx.model:
         allr = [r[1] for r in runs] + [r[2] for r in seqruns]
         alll = [r[2] for r in runs] + [r[3] for r in seqruns]
@@ -98,10 +99,10 @@ def run(ctx):
         exhaustive=False, what_is_proved="C05_sound/complete (+skip), C05_seq_reject, C05_seq_accept")
 
 
-def judge_seq(T, w, stream, sp, res):
+def judge_seq(T, w, stream, sp, res, fire=0):
     """recv_data_frame(True) results for a history: every frame up to the first sequencing violation is
     processed normally; the violating frame raises Protocol."""
-    pub = {"history": list(w), "stream": stream.hex()}
+    pub = {"history": list(w), "stream": stream.hex(), "fire": fire}
     ri = 0
     for i, a in enumerate(w):
         op, fin, p = ALPHA[a]
@@ -112,7 +113,7 @@ def judge_seq(T, w, stream, sp, res):
                        what="a frame that violates RFC 6455 5.4 sequencing was not rejected")
             return
         # accepted frame: produces a result only when something is returned to the caller
-        returns = (op >= 8) or fin == 1
+        returns = (op >= 8) or fin == 1 or bool(fire)
         if returns:
             if ri >= len(res) or not res[ri].startswith("ok:"):
                 T.fail("spec", pub, f"a result for frame {i} ({a})", str(res[ri:ri + 1]),
@@ -145,8 +146,8 @@ def replay(ctx, sc):
     sp = parse_specseq(ctx.spec.run(["specseq 1 " + hx(stream)])[0])
     T = Tally()
     if "history" in sc:
-        _, line, _ = observe(stream, [], "rd1", sp["n"] + 1)
-        judge_seq(T, sc["history"], stream, sp, results_of(line))
+        _, line, _ = observe(stream, [], "rd1", sp["n"] + 1, fire=sc.get("fire", 0))
+        judge_seq(T, sc["history"], stream, sp, results_of(line), sc.get("fire", 0))
     else:
         _, line, _ = observe(stream, [], "rf", sp["n"] + 1)
         judge_frames(T, "C05", sc, results_of(line), sp)
